@@ -12,7 +12,7 @@ import (
 // C04: tampering with any handshake message prevents completion.
 
 type C04Params struct {
-	Ver    int    `json:"ver"` // 12 | 13
+	Ver    int    `json:"ver"` // 12 | 13 | 1213 (both endpoints allow DTLS 1.2 and 1.3)
 	Kx     string `json:"kx"`  // cert | psk | ecdhepsk
 	EMS    int    `json:"ems"` // both sides: 0 request, 1 require, 2 disable
 	Resume bool   `json:"resume"`
@@ -64,7 +64,17 @@ func c04Counts(tier string) (int, int) {
 }
 
 func c04Gen(r *rand.Rand, tier string, idx int) any {
-	p := &C04Params{Ver: []int{12, 12, 12, 13}[r.IntN(4)]}
+	p := &C04Params{Ver: []int{12, 12, 12, 13, 12, 12, 13, 1213}[r.IntN(8)]}
+	if p.Ver == 1213 {
+		// version downgrade: the ClientHello of a client that allows 1.2 and 1.3 is made to look like
+		// a 1.2-only hello (or has one extension stripped), in every copy or in the first one only
+		p.Kx, p.HV, p.From, p.Type = "cert", true, "c", HTClientHello
+		p.Mut = []string{"strip-13", "strip-13", "ext-strip", "version-byte"}[r.IntN(4)]
+		p.Arg = r.IntN(1 << 20)
+		p.FirstOnly = r.IntN(2) == 0
+
+		return p
+	}
 	if p.Ver == 12 {
 		p.Kx = []string{"cert", "cert", "psk", "ecdhepsk"}[r.IntN(4)]
 		p.EMS = r.IntN(3)
@@ -242,6 +252,14 @@ func c04Mutate(body []byte, typ int, mut string, arg int) []byte {
 					raw.suites = []byte{raw.suites[0], raw.suites[1] ^ 1}
 				}
 			}
+		case "strip-13": // what a DTLS 1.2-only client would not send
+			var keep []Ext
+			for _, e := range raw.exts {
+				if e.Type != ExtSupportedVers && e.Type != ExtKeyShare && e.Type != ExtCookie13 && e.Type != 45 /* psk_key_exchange_modes */ {
+					keep = append(keep, e)
+				}
+			}
+			raw.exts = keep
 		case "ext-strip":
 			if len(raw.exts) > 0 {
 				k := arg % len(raw.exts)
@@ -277,6 +295,10 @@ func c04Run(rc *RunCtx, params any) {
 	rc.R.Class = fmt.Sprintf("v%d/%s/%s/%s", p.Ver, p.Kx, HsName(byte(p.Type)), p.Mut)
 	var cspec, sspec EpSpec
 	switch {
+	case p.Ver == 1213:
+		v, _ := variantByName("dual-13")
+		cspec, sspec = v.C, v.S
+		cspec.MTU, sspec.MTU = 3000, 3000 // keeps the ClientHello with its DTLS 1.3 key shares in one record
 	case p.Ver == 13:
 		cspec, sspec = pair13(suite13AES128)
 		cspec.Suites, sspec.Suites = []uint16{suite13AES128, suite13ChaCha}, []uint16{suite13AES128, suite13ChaCha}
@@ -426,7 +448,12 @@ func c04Run(rc *RunCtx, params any) {
 				mutName = "body-bit@fixed"
 			}
 		}
-		if p.FirstOnly && cOK && sOK && !p.Resume {
+		if p.Ver == 1213 && cOK && sOK {
+			if v := dtls.VerifSessionOf(pair.Client).Version; v == 0xfefd {
+				scope += ":downgraded-to-1.2"
+			}
+		}
+		if p.FirstOnly && cOK && sOK && !p.Resume && p.Ver != 1213 {
 			// did the rewriting steer what was negotiated? an untampered handshake of the same two
 			// configurations is the yardstick
 			scope += ":" + c04Effect(rc, pair, cspec, sspec)
